@@ -531,6 +531,39 @@ def run_client(unit):
                 else:
                     log['cex'].append({'obligation': 'client override parameters (appended after the base file) govern every field of the entry', 'finding': None,
                                        'config': cfg, 'reproduced': True, 'inputs': {'params': params}, 'detail': {'entry': e}, 'how': 'native', 'attempts': []})
+        # exhaustive over small base files (<= 3 lines over two names, repeated and contradicting lines included) x override sets: an
+        # overridden name reads as the override says, every other name as the last base line says
+        alphabet = [('Reservoir Depth', '3'), ('Reservoir Depth', '4'), ('Gradient 1', '50')]
+        overrides = [{}, {'Reservoir Depth': 3}, {'Reservoir Depth': 4}, {'Gradient 1': 50}, {'Gradient 1': 60}, {'Reservoir Depth': 3, 'Gradient 1': 50},
+                     {'Gradient 1': 50, 'Reservoir Depth': 4}]
+        cfg['base files'] = 'all sequences of <= 3 lines over ' + repr(alphabet)
+        cfg['override sets'] = overrides
+        for n in range(0, 4):
+            for seq in itertools.product(alphabet, repeat=n):
+                open(base, 'w').write(''.join(f'{k}, {v}\n' for k, v in seq))
+                last = {}
+                for k, v in seq:
+                    last[k] = v
+                for params in overrides[1:] if n == 0 else overrides:
+                    if not params and n == 0:
+                        continue
+                    ip = GeophiresInputParameters(from_file_path=base, params=params) if params else GeophiresInputParameters(from_file_path=base)
+                    got = concrete_tokenize(open(ip.as_file_path()).read())
+                    if params:
+                        os.unlink(ip.as_file_path())
+                    want = dict(last)
+                    want.update({k: str(v) for k, v in params.items()})
+                    log['paths'] += 1
+                    log['reachable'] += 1
+                    log['obligations'] += 1
+                    eff = {k: e[0] for k, e in got.items()}
+                    if eff == want:
+                        log['discharged'] += 1
+                    else:
+                        log['cex'].append({'obligation': 'client: an overridden name reads as the override says, every other name as the last base line says', 'finding': None,
+                                           'config': {'harness': 'client-override-order'}, 'reproduced': True,
+                                           'inputs': {'base file lines': [f'{k}, {v}' for k, v in seq], 'params': params},
+                                           'detail': {'effective': eff, 'expected': want}, 'how': 'native (exhaustive enumeration)', 'attempts': []})
     finally:
         import shutil
         shutil.rmtree(d, ignore_errors=True)
